@@ -1,3 +1,5 @@
+//go:build !skip_c18
+
 package props
 
 import (
@@ -523,13 +525,17 @@ func c18Lang(ctx *core.Ctx, idx int) core.Result {
 				ast.Assign{Name: "mine", Value: ast.Binary{Op: "*", L: nm("n"), R: il(2)}},
 				ast.Assign{Name: "below", Value: icall("zsum", ast.Binary{Op: "-", L: nm("n"), R: il(1)})},
 				ast.Binary{Op: "+", L: ast.Binary{Op: "-", L: nm("mine"), R: nm("n")}, R: nm("below")}}}}}},
-			icall("zsum", il(d)),
-			icall("zsum", il(d/2)),
+			ast.Assign{Name: "zra", Value: icall("zsum", il(d))},
+			ast.Assign{Name: "zrb", Value: icall("zsum", il(d/2))},
 		}
 	} else {
 		stmts = gen.ScopeProgram(r)
 	}
-	opts := diffOpts{DoOut: idx%2 == 0, Stress: stressModes[(idx/2)%len(stressModes)], Residue: true, Globals: true, Marker: "DIFF:"}
+	// the kind is a function of idx%12: the mode is drawn, not derived from idx
+	opts := diffOpts{DoOut: r.Chance(2, 3), Stress: stressModes[r.Intn(len(stressModes))], Residue: true, Globals: true, Marker: "DIFF:"}
+	if kind == "very-deep" && opts.Stress == "tight" {
+		opts.Stress = "plain" // tight reallocates on every push: quadratic at this depth
+	}
 	d := runDiff(stmts, opts)
 	res := diffCase("C18", stmts, opts, d, map[string]any{"family": "lang/" + kind})
 	res.Tag("lang:" + kind)
